@@ -9,13 +9,14 @@ def configs(tier):
     if tier == "quick":
         return [dict(eager=False, salt=1, fine=False, residue=True),
                 dict(eager=True, salt=-1, fine=False, residue=True)]
-    return [dict(eager=e, salt=s, fine=f, residue=True, k2_budget=3)
-            for e in (False, True) for s in (1, -1) for f in (False, True)]
+    return [dict(eager=False, salt=1, fine=True, residue=True, k2_budget=3),
+            dict(eager=True, salt=-1, fine=False, residue=True, k2_budget=2),
+            dict(eager=False, salt=3, fine=False, residue=True, k2_budget=2)]
 
 
 def run(tier, seed, jobs):
     cov, viol, harness = run_family(FAMILY, tier, configs(tier), jobs,
-                                    max_execs=20000 if tier == "quick" else 200000, seed=seed)
+                                    max_execs=20000 if tier == "quick" else 30000, seed=seed)
     cov["rule"] = (
         "scope-tree family plus residue programs (1-3 re-deliveries before exit, nested scope "
         "handing its count to the parent, asyncio.timeout around / inside / after AnyIO scopes "
